@@ -15,7 +15,8 @@
 // After an `ok` the same read is repeated on the file extended by 4096 x 0x00 and by 4096 x 0xFF; the observation
 // gets ` ext=same` if both give the same observation as the unextended file, else ` ext=differs`
 //   (differs: the reader consumed bytes beyond the end of the file as data).
-// Other observations: err:io | err:alloc | err:other | ub:<kind>@<gil file>:<function> | assert@<file>:<function> | timeout
+// Other observations: err:io | err:alloc | err:other | ub:<kind>@<gil file>:<function> | assert@<file>:<function> |
+//   timeout (the child used more than 2 s of CPU time)
 #include <boost/gil.hpp>
 #include <boost/gil/extension/io/bmp.hpp>
 #include <boost/gil/extension/io/pnm.hpp>
@@ -35,6 +36,7 @@
 #include <sys/stat.h>
 #include <signal.h>
 #include <poll.h>
+#include <sys/resource.h>
 namespace gil = boost::gil;
 
 extern "C" const char* __asan_default_options() {
@@ -217,7 +219,7 @@ static std::string run_op(Op const& o) {
 }
 
 // ---------------------------------------------------------------- fork per input
-static std::string g_scratch; static long g_timeout_ms = 5000;
+static std::string g_scratch; static long g_timeout_ms = 60000; static long g_cpu_s = 2;
 
 static std::string slurp(std::string const& p) { std::ifstream f(p.c_str(), std::ios::binary); std::stringstream ss; ss << f.rdbuf(); return ss.str(); }
 
@@ -334,6 +336,8 @@ static std::string run_child(Op const& o) {
     if (pid < 0) return "harness-error:fork";
     if (pid == 0) {
         close(pfd[0]);
+        // watchdog on the child's CPU time (robust against a loaded machine); the parent's wall-clock limit is only a backstop
+        struct rlimit rl; rl.rlim_cur = (rlim_t)g_cpu_s; rl.rlim_max = (rlim_t)g_cpu_s + 1; setrlimit(RLIMIT_CPU, &rl);
         int efd = open(errp.c_str(), O_WRONLY | O_CREAT | O_TRUNC, 0600); if (efd >= 0) { dup2(efd, 2); close(efd); }
         std::string out;
         try { out = run_op(o); }
@@ -359,6 +363,7 @@ static std::string run_child(Op const& o) {
     close(pfd[0]);
     int status = 0; waitpid(pid, &status, 0);
     if (timed_out) return "timeout";
+    if (WIFSIGNALED(status) && (WTERMSIG(status) == SIGXCPU || WTERMSIG(status) == SIGKILL)) return "timeout";
     if (!got.empty() && got.back() == '\n' && WIFEXITED(status) && WEXITSTATUS(status) == 0) { got.pop_back(); return got; }
     return classify_report(slurp(errp), status);
 }
@@ -374,6 +379,7 @@ static void spit(std::string const& p, std::string const& bytes) { std::ofstream
 int main(int argc, char** argv) {
     g_scratch = argc > 1 ? argv[1] : "/tmp";
     if (const char* t = std::getenv("C11_TIMEOUT_MS")) g_timeout_ms = std::atol(t);
+    if (const char* t = std::getenv("C11_CPU_S")) g_cpu_s = std::atol(t);
     bool no_ext = std::getenv("C11_NO_EXT") != nullptr;
     return hv::run([&](std::string const& line) -> std::string {
         auto w = hv::words(line);
